@@ -115,7 +115,7 @@ fn plans_c06(tier: Tier) -> Vec<Plan> {
     // MQTT 5 requesters (acks and releases may carry properties)
     let mut c3 = c.clone();
     c3.v5 = vec![true, false, true, false, false];
-    v.push(Plan { cfg: c3, depth_by_devs: if q { vec![3] } else { vec![4, 4] } });
+    v.push(Plan { cfg: c3, depth_by_devs: if q { vec![3, 2] } else { vec![4, 4] } });
     v
 }
 
